@@ -412,6 +412,22 @@ impl Writer {
 
             buffers.push(combined);
 
+            #[cfg(walrus_verif)]
+            match crate::wal::verif::io_event("uring_sqe", &blk.file_path, file_offset, buffers[buffers.len() - 1].len() as u64) {
+                crate::wal::verif::IoDecision::DrainExit => {
+                    // crash point inside a batch: the writes queued so far complete, the rest never start
+                    let queued = buffers.len() - 1;
+                    if queued > 0 {
+                        let _ = ring.submit_and_wait(queued);
+                    }
+                    crate::wal::verif::exit_now();
+                }
+                crate::wal::verif::IoDecision::Fail => {
+                    return Err(crate::wal::verif::injected_error());
+                }
+                crate::wal::verif::IoDecision::Proceed => {}
+            }
+
             unsafe {
                 ring.submission().push(&write_op).map_err(|e| {
                     std::io::Error::new(
@@ -428,6 +444,8 @@ impl Writer {
         );
 
         // Phase 3: Atomic submission
+        #[cfg(walrus_verif)]
+        let _ = crate::wal::verif::io_event("uring_submit", "", 0, write_plan.len() as u64);
         match ring.submit_and_wait(write_plan.len()) {
             Ok(_) => {
                 let mut all_success = true;
@@ -436,6 +454,14 @@ impl Writer {
                         let data_idx = cqe.user_data() as usize;
                         let expected_bytes = buffers.get(data_idx).map(|b| b.len()).unwrap_or(0);
                         let result = cqe.result();
+                        #[cfg(walrus_verif)]
+                        let result = if crate::wal::verif::io_event("uring_cqe", "", data_idx as u64, 0)
+                            == crate::wal::verif::IoDecision::Fail
+                        {
+                            -5
+                        } else {
+                            result
+                        };
 
                         if result < 0 {
                             all_success = false;
